@@ -53,6 +53,10 @@ theorem C01_handle_message_partial (W : WriterSafe) : C01_full :=
   fun cfg tr now bufLen req hcfg henv =>
     handleMessage_no_panic W cfg hcfg tr now bufLen req henv (macLenOK_server hmacLenOK)
 
+/-- **Main theorem: C01 holds** — with the writer's theorems (`QV.Writer.writerSafe`, proved from
+    C12/C13 in lean/QV/Proofs/WriterSafe.lean) no interface hypothesis remains. -/
+theorem C01_holds : C01_full := C01_handle_message_partial Writer.writerSafe
+
 /-- … and a response, when there is one, is exactly what `finish` serialises from a writer state
     that satisfies the writer invariant (used by C02). -/
 theorem C01_response_is_finished_writer (W : WriterSafe) (cfg : Cfg) (hcfg : CfgWF cfg)
